@@ -125,6 +125,27 @@ pub enum Second {
     PartnerSame,
     /// constructed u1 not in {u0, -u0} with sswu(u1) = -sswu(u0)
     PartnerInverse,
+    /// constructed u1 whose SSWU intermediate t1 = Z u1^2 is tied to t0 = Z u0^2 although the images are unrelated:
+    /// kind 0: t1 = -1 - t0 (same t^2 + t, hence the same denominators / Jacobian Z), 1: -t0, 2: 1/t0, 3: t0 + 1,
+    /// 4: t0^2, 5: -1 - 1/t0; u1 = +-sqrt(t1 / Z) when the root exists
+    SharedIntermediate(u8, bool),
+}
+
+const SHARED_KINDS: [&str; 6] = ["t1=-1-t0 (same t^2+t)", "t1=-t0", "t1=1/t0", "t1=t0+1", "t1=t0^2", "t1=-1-1/t0"];
+
+pub fn shared_intermediate<F: refmodel::fld::SqrtFld>(z: &F, u0: &F, kind: u8, neg: bool) -> Option<F> {
+    let t0 = z.mul(&u0.sqr());
+    let one = F::one();
+    let t1 = match kind % 6 {
+        0 => one.neg().sub(&t0),
+        1 => t0.neg(),
+        2 => t0.inv()?,
+        3 => t0.add(&one),
+        4 => t0.sqr(),
+        _ => one.neg().sub(&t0.inv()?),
+    };
+    let u1 = t1.mul(&z.inv()?).sqrt()?;
+    Some(if neg { u1.neg() } else { u1 })
 }
 
 #[derive(Clone, Debug, Serialize, Deserialize, PartialEq, Eq, Hash)]
@@ -241,6 +262,7 @@ fn map_case_strategy(group: u8) -> BoxedStrategy<MapCase> {
         3 => Just(Second::Negated),
         4 => Just(Second::PartnerSame),
         4 => Just(Second::PartnerInverse),
+        6 => (0u8..6, any::<bool>()).prop_map(|(k, n)| Second::SharedIntermediate(k, n)),
     ];
     (u_strategy(), second).prop_map(move |(u0, second)| MapCase { group, u0, second }).boxed()
 }
@@ -338,6 +360,17 @@ fn check_map(c: &MapCase, info: &mut Info) -> Result<(), String> {
                     }
                 }
             }
+            Second::SharedIntermediate(kind, neg) => match shared_intermediate(&h2c::z1(), &u0, *kind, *neg) {
+                Some(p) => {
+                    info.class(format!("pair:shared-intermediate {}", SHARED_KINDS[*kind as usize % 6]));
+                    info.nt();
+                    p
+                }
+                None => {
+                    info.class("pair:shared-intermediate has no root (fallback u1=u0)");
+                    u0.clone()
+                }
+            },
         };
         let want = h2c::map2_to_curve_g1(&u0, &u1);
         let got = cr("map2_to_curve", || <crt::G1 as MapToCurve<crt::G1>>::map2_to_curve(&fq_c(&u0), &fq_c(&u1)))?;
@@ -391,6 +424,17 @@ fn check_map(c: &MapCase, info: &mut Info) -> Result<(), String> {
                     }
                 }
             }
+            Second::SharedIntermediate(kind, neg) => match shared_intermediate(&h2c::z2(), &u0, *kind, *neg) {
+                Some(p) => {
+                    info.class(format!("pair:shared-intermediate {}", SHARED_KINDS[*kind as usize % 6]));
+                    info.nt();
+                    p
+                }
+                None => {
+                    info.class("pair:shared-intermediate has no root (fallback u1=u0)");
+                    u0.clone()
+                }
+            },
         };
         let want = h2c::map2_to_curve_g2(&u0, &u1);
         let got = cr("map2_to_curve", || <crt::G2 as MapToCurve<crt::G2>>::map2_to_curve(&fq2_c(&u0), &fq2_c(&u1)))?;
@@ -423,6 +467,7 @@ fn seq_strategy() -> BoxedStrategy<SeqCase> {
         2 => Just(Second::Negated),
         2 => Just(Second::PartnerSame),
         2 => Just(Second::PartnerInverse),
+        3 => (0u8..6, any::<bool>()).prop_map(|(k, n)| Second::SharedIntermediate(k, n)),
     ];
     (0u8..2, u_strategy(), proptest::collection::vec(second, 2..5)).prop_map(|(group, u0, steps)| SeqCase { group, u0, steps }).boxed()
 }
@@ -442,7 +487,7 @@ crate::long_sub!(run_long_history, [9, 10]);
 pub fn def() -> PropDef {
     PropDef {
         id: "C14",
-        rule: "u from the field-element generator plus 0, +-1, (G1) the SSWU-exceptional roots +-sqrt(-1/11), and inputs constructed by inverting the SSWU map on points of E' that are special for the later stages (rational kernel points of the 11-isogeny, small-order points, pure cofactor points [r]R - the composition sends all of them to the identity - and order-r points), and inputs constructed backwards (square roots) from structured intermediate values of the SSWU computation; pairs (u0, u1): independent, u1 = u0, u1 = -u0, and partners constructed by the model (solving two quadratics for Z u'^2) with u1 not in {+-u0} and sswu(u1) = sswu(u0) resp. = -sswu(u0). Oracle: model clear_cofactor(iso(sswu(u))) and clear_cofactor(iso(sswu(u0)) + iso(sswu(u1))) with + the model law on the target curve; model subgroup test; no panic. Non-trivial = pair with coinciding or inverse SSWU images, or an input that is a constructed SSWU preimage of a stage-special point or backwards from a structured intermediate value (N, Z u^2, u^2 or x1 of shape (c,0), (0,c), (c,c), (c,-c) in Fq2; the generator's structured Fq values in G1); distinct = distinct cases",
+        rule: "u from the field-element generator plus 0, +-1, (G1) the SSWU-exceptional roots +-sqrt(-1/11), and inputs constructed by inverting the SSWU map on points of E' that are special for the later stages (rational kernel points of the 11-isogeny, small-order points, pure cofactor points [r]R - the composition sends all of them to the identity - and order-r points), and inputs constructed backwards (square roots) from structured intermediate values of the SSWU computation; pairs (u0, u1): independent, u1 = u0, u1 = -u0, and partners constructed by the model (solving two quadratics for Z u'^2) with u1 not in {+-u0} and sswu(u1) = sswu(u0) resp. = -sswu(u0), and second inputs whose intermediate t1 = Z u1^2 is tied to t0 = Z u0^2 (t1 = -1 - t0: same t^2 + t and therefore the same Jacobian Z of the two SSWU images; -t0, 1/t0, t0 + 1, t0^2, -1 - 1/t0) while the images are unrelated points. Oracle: model clear_cofactor(iso(sswu(u))) and clear_cofactor(iso(sswu(u0)) + iso(sswu(u1))) with + the model law on the target curve; model subgroup test; no panic. Non-trivial = pair with coinciding or inverse SSWU images, or an input that is a constructed SSWU preimage of a stage-special point or backwards from a structured intermediate value (N, Z u^2, u^2 or x1 of shape (c,0), (0,c), (c,c), (c,-c) in Fq2; the generator's structured Fq values in G1); distinct = distinct cases",
         needs_pairing: false,
         subs: vec![
             Box::new(crate::engine::EnumSub { name: "long-history", rule: super::longhist::RULE, run: run_long_history, replay: super::longhist::replay, exhaustive: false }),
